@@ -82,6 +82,8 @@ func vrtBytes(name string, max int) []byte {
 	return b[:n:n]
 }
 
+func vrtBytesL(name string, max int) []byte { return vrtBytes(name, max) }
+
 func vrtBytesN(name string, n int) []byte {
 	b := make([]byte, n)
 	for i := range b {
